@@ -2,7 +2,10 @@ module verif/harness
 
 go 1.25.0
 
-require github.com/diskfs/go-diskfs v0.0.0
+require (
+	github.com/diskfs/go-diskfs v0.0.0
+	github.com/sirupsen/logrus v1.9.4
+)
 
 require (
 	github.com/anchore/go-lzo v0.1.0 // indirect
@@ -12,7 +15,6 @@ require (
 	github.com/klauspost/compress v1.18.5 // indirect
 	github.com/pierrec/lz4/v4 v4.1.26 // indirect
 	github.com/pkg/xattr v0.4.12 // indirect
-	github.com/sirupsen/logrus v1.9.4 // indirect
 	github.com/ulikunitz/xz v0.5.15 // indirect
 	golang.org/x/sys v0.43.0 // indirect
 )
